@@ -5,6 +5,10 @@ Correspondence: `mchap atomize` (in-process) on (a) generated haplotype VCF text
 REFMASKED, short ACP arrays, all-missing AF0 records) and (b) real outputs of assemble / call / call-exact on
 synthetic datasets (whole files and one record at a time); stdout is parsed independently and compared with the
 Lean model (`atom`).  Oracle: the property statement evaluated directly in Python (`py_block`).
+
+The model is total on these shapes since the repairs of F8 (no ALT), F9 (monomorphic site), N1 ('.' in ACP/AFP) and
+N2 (PQ printed as 'None'); a crash or a 'None' is classified by `classify_crash` / the PQ oracle under the
+signatures of those defects, so a reverted fix fires them again.
 """
 from __future__ import annotations
 
@@ -25,6 +29,7 @@ THEOREMS = [
     "MCHap.C20.pos_spec",
     "MCHap.C20.gt_projection",
     "MCHap.C20.block_gts",
+    "MCHap.C20.block_alleles_ac",
     "MCHap.C20.numbering_first_appearance",
     "MCHap.C20.alleles_first_appearance",
     "MCHap.C20.marginal_spec",
@@ -32,9 +37,11 @@ THEOREMS = [
     "MCHap.C20.acp_marginal",
     "MCHap.C20.acp_sums_to_ploidy",
     "MCHap.C20.block_no_snv",
-    "MCHap.C20.block_total_partial",
-    "MCHap.C20.no_alt_crash",
-    "MCHap.C20.monomorphic_crash",
+    "MCHap.C20.block_total",
+    "MCHap.C20.block_line_shape",
+    "MCHap.C20.monomorphic_site_line",
+    "MCHap.C20.no_alt_all_monomorphic",
+    "MCHap.C20.missing_counts_are_missing",
 ]
 RULE = ("cases: one haplotype record each (generated shapes + every record of real assemble/call/call-exact outputs). "
         "Non-trivial: >= 2 SNVs, >= 2 ALT, a '.' allele or a posterior-count field present, and a site where two "
@@ -140,10 +147,11 @@ def py_block(d):
                 if a is not None:
                     ac[site[a]] += 1
             ploidy = len(s["gt"])
-            src = s["acp"] if s["acp"] is not None else (None if s["afp"] is None else
-                                                          [None if x is None else x * ploidy for x in s["afp"]])
+            usable = lambda v: v is not None and all(x is not None for x in v)
+            # posterior counts: ACP, else AFP x ploidy; a '.' entry makes the field unknown
+            src = s["acp"] if usable(s["acp"]) else ([x * ploidy for x in s["afp"]] if usable(s["afp"]) else None)
             m = None
-            if src is not None and all(x is not None for x in src):
+            if src is not None:
                 m = [sum((c for h, c in enumerate(src) if h < len(site) and site[h] == a), Fraction(0)) for a in range(n_all)]
                 tot = sum(m)
                 m = None if tot == 0 else [x * ploidy / tot for x in m]    # documented normalisation to the ploidy
@@ -236,7 +244,7 @@ def parse_model_line(text):
     for s in f[8:]:
         gt, pq, dp, ds = s.split(":")
         line["gts"].append([None if a == "." else int(a) for a in gt.split("|")])
-        line["pq"].append(None if pq == "None" else int(pq))
+        line["pq"].append(None if pq == "." else int(pq))
         line["sdp"].append(None if dp == "nan" else int(C.parse_rat(dp)))
         d = rats(ds)
         line["ds"].append(None if any(x is None for x in d) else d)
@@ -358,7 +366,7 @@ def classify_crash(d, err):
     if "IndexError" in err and d["snvpos"] and any(len({h[p - 1] for h in haps}) == 1 for p in d["snvpos"]):
         return SIG_F9
     if "TypeError" in err and "NoneType" in err and any(
-            (s["acp"] is not None and None in s["acp"]) or (s["acp"] is None and s["afp"] is not None and None in s["afp"])
+            (s["acp"] is not None and None in s["acp"]) or (s["afp"] is not None and None in s["afp"])
             for s in d["samples"]):
         return SIG_ACP
     return "C20/atomize/crash"
@@ -425,7 +433,7 @@ class Atomizer:
             for g, m in zip(got, model_lines):
                 diff = compare_line(g, m)
                 pq = [s.get("PQ") for s in g["samples"]]
-                if pq != ["None" if x is None else str(x) for x in m["pq"]]:
+                if pq != ["." if x is None else str(x) for x in m["pq"]]:
                     diff.append(f"PQ {pq} != {m['pq']}")
                 if diff:
                     chk.disagreement("atomize line != model line: " + "; ".join(diff[:3]), {**case, "line": g["line"], "model": m})
@@ -442,15 +450,28 @@ class Atomizer:
                 if diff:
                     chk.violation("atomize line differs from the per-SNV projection: " + "; ".join(diff[:3]),
                                   {**case, "line": g["line"]}, "C20/atomize/projection")
-                pq = [s.get("PQ") for s in g["samples"]]
-                if any(x != "." and not re.match(r"^-?[0-9]+$", x or "") for x in pq):
-                    chk.count("pq-None")
-                    chk.violation(f"atomize prints FORMAT/PQ (Type=Integer) as {pq} for a sample whose SQ is missing",
-                                  {**case, "line": g["line"]}, SIG_PQ)
             for w in mono:
+                # the statement allows omitting such a site; when it is printed it carries ALT '.' and the projection
                 g = printed.get(w["pos"])
-                if g is not None and g["ALT"] != []:
-                    chk.violation("a site without alternative base is printed with an ALT", {**case, "line": g["line"]}, "C20/atomize/projection")
+                if g is None:
+                    chk.count("monomorphic-site-omitted")
+                    continue
+                chk.count("monomorphic-site-printed")
+                diff = compare_line(g, w)
+                if diff:
+                    chk.violation("line of a site without alternative base differs from the projection: " + "; ".join(diff[:3]),
+                                  {**case, "line": g["line"]}, "C20/atomize/projection")
+            for w in want:
+                g = printed.get(w["pos"])
+                if g is None:
+                    continue
+                pq = [x.get("PQ") for x in g["samples"]]
+                if pq != ["." if q is None else str(q) for q in w["pq"]]:
+                    bad_text = any(x != "." and not re.match(r"^-?[0-9]+$", x or "") for x in pq)
+                    if bad_text:
+                        chk.count("pq-None")
+                    chk.violation(f"atomize prints FORMAT/PQ (Type=Integer) as {pq} for samples with SQ {w['pq']}",
+                                  {**case, "line": g["line"]}, SIG_PQ if bad_text else "C20/atomize/projection")
             extra = set(printed) - {w["pos"] for w in want}
             if extra:
                 chk.violation(f"lines at positions that are no SNVPOS of the record: {sorted(extra)}", case, "C20/atomize/extra-lines")
